@@ -11,8 +11,19 @@ use yuvxyb::{ColorPrimaries as CP, CreationError, Frame, Hsl, LinearRgb, Pixel, 
 const SS: [(u8, u8); 9] = [(0, 0), (1, 0), (1, 1), (0, 1), (2, 0), (2, 2), (0, 2), (2, 1), (1, 2)];
 
 pub fn cfg_strategy() -> BoxedStrategy<YuvConfig> {
-    (std_matrix(), sup_transfer(), sup_primaries(), prop_oneof![Just(8u8), Just(10u8), Just(12u8), Just(16u8), 9u8..=16], any::<bool>(), pick_from(&SS))
-        .prop_map(|(m, t, p, d, full, ss)| cfg(m, t, p, d, full, ss))
+    (std_matrix(), sup_transfer(), sup_primaries(), prop_oneof![Just(8u8), Just(10u8), Just(12u8), Just(16u8), 9u8..=16], any::<bool>(), pick_from(&SS), prop_oneof![3 => Just(0u8), 1 => 1u8..8])
+        .prop_map(|(m, t, p, d, full, ss, unspec)| {
+            // a quarter of the configs leave a subset of {matrix, primaries, transfer} Unspecified: the
+            // accepted image must then expose the documented resolution of exactly those fields
+            cfg(
+                if unspec & 1 != 0 { yuvxyb::MatrixCoefficients::Unspecified } else { m },
+                if unspec & 4 != 0 { TC::Unspecified } else { t },
+                if unspec & 2 != 0 { CP::Unspecified } else { p },
+                d,
+                full,
+                ss,
+            )
+        })
         .boxed()
 }
 
@@ -36,8 +47,9 @@ fn construct<T: Pixel>(spec: &FrameSpec) -> Result<(Outcome, Option<bool>), Stri
             if yuv.width() != spec.planes[0].w || yuv.height() != spec.planes[0].h {
                 return Err(format!("accepted image reports {}x{}, luma plane is {}x{}", yuv.width(), yuv.height(), spec.planes[0].w, spec.planes[0].h));
             }
-            if yuv.config() != spec.cfg {
-                return Err(format!("accepted image reports a different config: {:?}", yuv.config()));
+            let want = super::c15::resolve_yuv(&spec.cfg, spec.planes[0].w, spec.planes[0].h);
+            if yuv.config() != want {
+                return Err(format!("accepted image reports config {:?}, expected {:?} (the given config apart from the resolution of Unspecified metadata)", yuv.config(), want));
             }
             if yuv.data() != &copy.planes[..] {
                 return Err("accepted image does not expose the planes it was given".into());
@@ -49,6 +61,17 @@ fn construct<T: Pixel>(spec: &FrameSpec) -> Result<(Outcome, Option<bool>), Stri
 
 pub fn check(spec: &FrameSpec, st: &mut Stats) -> Result<(), Violation> {
     let fail = |sig: &str, msg: String| Violation { signature: format!("C12:{sig}"), message: msg, case: json!({"prop":"C12","part":"yuv","spec":spec.to_json()}) };
+    // a sibling construction first: same geometry and metadata, another range (and depth): the
+    // constructor is a pure function of its arguments, nothing may leak into the next call
+    {
+        let mut sib = spec.clone();
+        sib.cfg.full_range = !spec.cfg.full_range;
+        if !spec.u8_storage {
+            sib.cfg.bit_depth = 16;
+        }
+        sib.bad = None;
+        let _ = catch(|| if sib.u8_storage { construct::<u8>(&sib).map(|_| ()) } else { construct::<u16>(&sib).map(|_| ()) });
+    }
     let res = catch(|| if spec.u8_storage { construct::<u8>(spec) } else { construct::<u16>(spec) });
     st.evaluations += 1;
     let (outcome, bad_visible) = match res {
@@ -262,4 +285,4 @@ pub fn replay(v: &Value) -> Result<(), String> {
     }
 }
 
-pub const RULE: &str = "cases = frame specifications generated by proptest: luma w,h in 1..=12 plus {31,32,33,63,64,65,130}; U and V plane sizes drawn independently of luma (required, +-1, 0..=13, double), per-plane xdec/ydec (mostly the configured one, sometimes 0..=2), padding 0..=17, Plane::new or Plane::from_slice, u8/u16 storage, depth 8..16, 9 subsamplings, optional single out-of-range sample (value in (2^n-1, 65535]) at a visible or padding position of any plane; oracle = the four conjuncts of the statement evaluated on the specification: Ok iff all hold, an Err variant must belong to a violated conjunct, no panic, accepted images expose the identical planes/dims/config; plus the complete enumeration of (len,w,h) in 0..=40 for the four float constructors; non-trivial = a frame malformed in exactly one way, or well-formed with an out-of-range sample hidden in padding (float: len within 1 of w*h); distinct = by hash of the specification";
+pub const RULE: &str = "cases = frame specifications generated by proptest: luma w,h in 1..=12 plus {31,32,33,63,64,65,130}; U and V plane sizes drawn independently of luma (required, +-1, 0..=13, double), per-plane xdec/ydec (mostly the configured one, sometimes 0..=2), padding 0..=17, Plane::new or Plane::from_slice, u8/u16 storage, depth 8..16, 9 subsamplings, a quarter of the configs with a subset of {matrix, primaries, transfer} Unspecified, optional single out-of-range sample (value in (2^n-1, 65535]) at a visible or padding position of any plane; oracle = the four conjuncts of the statement evaluated on the specification: Ok iff all hold, an Err variant must belong to a violated conjunct, no panic, accepted images expose the identical planes/dims/config (Unspecified fields resolved as documented); each construction is preceded by a sibling construction with another range/depth (no state may leak); plus the complete enumeration of (len,w,h) in 0..=40 for the four float constructors; non-trivial = a frame malformed in exactly one way, or well-formed with an out-of-range sample hidden in padding (float: len within 1 of w*h); distinct = by hash of the specification";
